@@ -632,6 +632,9 @@ func libSide(w *bufio.Writer, side string, caseN int, mt protoreflect.MessageTyp
 	var err error
 	pn = call("protojson.Marshal", func() { doc, err = protojson.Marshal(px) })
 	done("same", "protojson.Marshal", pn, (err == nil) == (refJErr == nil) && (err != nil || docEq(doc, refJ)), false, false, 0, empty)
+	refJU, refJUErr := protojson.MarshalOptions{EmitUnpopulated: true}.Marshal(refMsg)
+	pn = call("protojson.Marshal(EmitUnpopulated)", func() { doc, err = protojson.MarshalOptions{EmitUnpopulated: true}.Marshal(px) })
+	done("same", "protojson.Marshal(EmitUnpopulated)", pn, (err == nil) == (refJUErr == nil) && (err != nil || docEq(doc, refJU)), false, false, 0, empty)
 	pn = call("prototext.Marshal", func() { doc, err = prototext.Marshal(px) })
 	okT := (err == nil) == (refTErr == nil)
 	if okT && err == nil {
